@@ -28,17 +28,22 @@ import (
 // --- decoder / encoder tokens --------------------------------------------------------------------
 
 // verifC02UnmarshalTx replaces bin.UnmarshalBin(&tx, buf) in parseTransactionAndMetaFromNode: the
-// wire form of a model transaction is compact-u16(1) ++ signature ++ message bytes (at most 255);
-// the decoded transaction carries that signature and remembers the message bytes in the data of
+// wire form of a model transaction is count (1..3) ++ signatures ++ message bytes (at most 255);
+// the decoded transaction carries those signatures and remembers the message bytes in the data of
 // its only instruction.
 func verifC02UnmarshalTx(_ any, tx *solana.Transaction, buf []byte) error {
-	if len(buf) < verifC02TxHead || len(buf) > verifC02TxHead+255 || buf[0] != 1 {
+	if len(buf) < 1 || buf[0] < 1 || buf[0] > 3 {
 		return errors.New("verif model: transaction bytes outside the model")
 	}
-	var s solana.Signature
-	copy(s[:], buf[1:verifC02TxHead])
-	tx.Signatures = []solana.Signature{s}
-	tx.Message.Instructions = []solana.CompiledInstruction{{Data: append([]byte{}, buf[verifC02TxHead:]...)}}
+	n := int(buf[0])
+	if len(buf) < 1+64*n || len(buf) > 1+64*n+255 {
+		return errors.New("verif model: transaction bytes outside the model")
+	}
+	tx.Signatures = make([]solana.Signature, n)
+	for i := range tx.Signatures {
+		copy(tx.Signatures[i][:], buf[1+64*i:1+64*(i+1)])
+	}
+	tx.Message.Instructions = []solana.CompiledInstruction{{Data: append([]byte{}, buf[1+64*n:]...)}}
 	return nil
 }
 
@@ -51,17 +56,13 @@ func verifC02ParseMeta(_ any, buf []byte) (any, error) {
 
 type verifC02EncTok struct {
 	encoding solana.EncodingType
-	sig0     solana.Signature
-	nsigs    int
+	sigs     []solana.Signature
 	msg      []byte
 	ninstr   int
 }
 
 func encodeTransactionResponseBasedOnWantedEncoding(encoding solana.EncodingType, tx solana.Transaction, meta any) (any, any, error) {
-	t := &verifC02EncTok{encoding: encoding, nsigs: len(tx.Signatures), ninstr: len(tx.Message.Instructions)}
-	if len(tx.Signatures) > 0 {
-		t.sig0 = tx.Signatures[0]
-	}
+	t := &verifC02EncTok{encoding: encoding, sigs: append([]solana.Signature{}, tx.Signatures...), ninstr: len(tx.Message.Instructions)}
 	if len(tx.Message.Instructions) > 0 {
 		t.msg = tx.Message.Instructions[0].Data
 	}
@@ -69,18 +70,22 @@ func encodeTransactionResponseBasedOnWantedEncoding(encoding solana.EncodingType
 }
 
 // verifC02SameTx: branch-free "the response pair (transaction token, meta) carries exactly the
-// archived payloads of t (signature and message bytes; metadata bytes), encoded as requested, and
+// archived payloads of t (signatures and message bytes; metadata bytes), encoded as requested, and
 // the response's signature list is the transaction's".
 func verifC02SameTx(txAny, metaAny any, sigs []solana.Signature, t *verifC02Tx, enc solana.EncodingType) uint64 {
-	tok, ok := txAny.(*verifC02EncTok)
-	if !ok || tok.nsigs != 1 || tok.ninstr != 1 || tok.encoding != enc || len(sigs) != 1 {
-		return 0
-	}
 	want := t.data.want
-	if len(tok.msg) != len(want)-verifC02TxHead {
+	n := int(want[0])
+	tok, ok := txAny.(*verifC02EncTok)
+	if !ok || len(tok.sigs) != n || tok.ninstr != 1 || tok.encoding != enc || len(sigs) != n {
 		return 0
 	}
-	same := verifC02B(want[0] == 1) & verifC02B(bytes.Equal(tok.sig0[:], want[1:verifC02TxHead])) & verifC02B(bytes.Equal(tok.msg, want[verifC02TxHead:])) & verifC02B(sigs[0] == tok.sig0)
+	if len(tok.msg) != len(want)-1-64*n {
+		return 0
+	}
+	same := verifC02B(bytes.Equal(tok.msg, want[1+64*n:]))
+	for i := 0; i < n; i++ {
+		same &= verifC02B(bytes.Equal(tok.sigs[i][:], want[1+64*i:1+64*(i+1)])) & verifC02B(sigs[i] == tok.sigs[i])
+	}
 	if len(t.meta.want) == 0 {
 		if metaAny != nil {
 			return 0
